@@ -451,16 +451,12 @@ def r_wrap(ctx) -> RuleResult:
         if trail:
             conts.add(trail)
     # reader side
-    v3 = reader_entries(ctx)["V3000"]
-    sp = None
-    for q in ctx.cg.closure([v3.fq]):
-        f = ctx.cg.funcs[q]
-        if any(isinstance(x, ast.Call) and isinstance(x.func, ast.Attribute) and x.func.attr == "endswith" for x in own_walk(f.node)):
-            sp = f
-    if sp is None:
+    from .readers import splice_model
+    sm = splice_model(ctx)
+    if sm is None:
         raise AnalysisError("R-WRAP: reader has no continuation-line splicer")
-    r_prefix = {x.args[0].value for x in own_walk(sp.node) if isinstance(x, ast.Call) and isinstance(x.func, ast.Attribute) and x.func.attr == "startswith" and x.args and isinstance(x.args[0], ast.Constant)}
-    r_cont = {x.args[0].value for x in own_walk(sp.node) if isinstance(x, ast.Call) and isinstance(x.func, ast.Attribute) and x.func.attr == "endswith" and x.args and isinstance(x.args[0], ast.Constant)}
+    sp = sm["func"]
+    r_prefix, r_cont = set(sm["prefixes"]), set(sm["conts"])
     ok = len(prefixes) == 1 and prefixes == r_prefix
     res.inst(f"{wh.fq} vs {sp.fq}", f"line prefix {sorted(prefixes)} / {sorted(r_prefix)}", "ok" if ok else "fail")
     if not ok:
@@ -472,20 +468,11 @@ def r_wrap(ctx) -> RuleResult:
     # reader strips: curr_line[0:-len(cont)] + next_line[len(prefix):]
     plen = len(next(iter(r_prefix))) if r_prefix else None
     clen = len(next(iter(r_cont))) if r_cont else None
-    cat = [x for x in own_walk(sp.node) if isinstance(x, ast.BinOp) and isinstance(x.op, ast.Add) and isinstance(x.left, ast.Subscript) and isinstance(x.right, ast.Subscript)]
-    ok = False
-    for x in cat:
-        l, r = x.left.slice, x.right.slice
-        if isinstance(l, ast.Slice) and isinstance(r, ast.Slice):
-            lhi = try_const(ctx, sp, l.upper) if l.upper is not None else None
-            llo = try_const(ctx, sp, l.lower) if l.lower is not None else 0
-            rlo = try_const(ctx, sp, r.lower) if r.lower is not None else 0
-            if llo == 0 and lhi == -clen and rlo == plen and r.upper is None:
-                ok = True
+    ok = sm["drop_end"] == clen and sm["drop_start"] == plen
     res.inst(sp.fq, "splice = current[0:-1] + next[len(prefix):]", "ok" if ok else "fail", detail=f"prefix length {plen}")
     if not ok:
-        n = cat[0] if cat else sp.node
-        res.fail(Finding("R-WRAP", sp.module.rel, sp.qualname, norm(n) if cat else "splice", f"the splice does not drop exactly the continuation character and the {plen}-character prefix of the next line", line=n.lineno))
+        n = sm["concat"]
+        res.fail(Finding("R-WRAP", sp.module.rel, sp.qualname, norm(n), f"the splice does not drop exactly the continuation character and the {plen}-character prefix of the next line", line=n.lineno))
     # wrap arithmetic: the chunk taken equals the rest dropped
     chunk = [n for n in own_walk(wh.node) if isinstance(n, ast.Assign) and isinstance(n.value, ast.Tuple) and len(n.value.elts) == 2
              and all(isinstance(v, ast.Subscript) and isinstance(v.slice, ast.Slice) for v in n.value.elts)]
@@ -743,10 +730,8 @@ def r_fields(ctx) -> RuleResult:
     prefix_tokens = 2          # "M  V30 " contributes the tokens 'M', 'V30'
     v3fi, I, rec, bonds = analyse_reader(ctx, "V3000")
     # reader side: which token index feeds what (provenance labels of the heap interpreter)
-    common = None
-    for ev in I.events:
-        if ev.kind == "store":
-            common = set(ev.flags) if common is None else common & set(ev.flags)
+    from .readers import common_labels
+    common = common_labels(I, rec, bonds)
 
     def idx_of(obj):
         return {c[1:-1] for c in _labels(set(taint(obj)) - (common or set()), "@idx")}
@@ -833,10 +818,8 @@ def r_fields(ctx) -> RuleResult:
 def _check_optional_tokens(ctx, fi: FuncInfo, res: RuleResult):
     """`name = f" KW={v}" if (v := attrs.get(KEY)) and <range> else ""`"""
     v3 = reader_entries(ctx)["V3000"]
-    preds = []
-    for q in ctx.cg.closure([v3.fq]):
-        f = ctx.cg.funcs[q]
-        preds += [(f, *p) for p in _token_predicates(ctx, f)]
+    from .readers import token_recognizers
+    recs = token_recognizers(ctx, [ctx.cg.funcs[q] for q in ctx.cg.closure([v3.fq])])
     want = {"chg": ("CHG", [-15, -1, 1, 15], [0, 16, -16]), "rad": ("RAD", [1, 2, 3], [0, 4, -1]), "mass": ("MASS", [1, 13, 300], [0, -1])}
     found = set()
     for n in own_walk(fi.node):
@@ -878,11 +861,10 @@ def _check_optional_tokens(ctx, fi: FuncInfo, res: RuleResult):
         # the reader recognises this token for the same key (one recognizer accepts it)
         tok = f"{wkw}={inside[0]}"
         acc = []
-        from .readers import pred_accepts
-        for f, owner, pv, pred in preds:
+        for r in recs:
             try:
-                if pred_accepts(pred, pv, tok) and not pred_accepts(pred, pv, "C") and not pred_accepts(pred, pv, "0.000000"):
-                    acc.append(pred)      # an attribute recognizer (not a generic token filter)
+                if r.accepts(tok) and not r.accepts("C") and not r.accepts("0.000000"):
+                    acc.append(r)      # an attribute recognizer (not a generic token filter)
             except Exception:
                 pass
         okread = len(acc) == 1
@@ -950,11 +932,25 @@ def _check_line_sequence(ctx, wh: FuncInfo, res: RuleResult):
     for q in ctx.cg.closure([v3.fq]):
         f = ctx.cg.funcs[q]
         for x in own_walk(f.node):
-            if isinstance(x, ast.Compare) and isinstance(x.comparators[0], ast.Constant) and x.comparators[0].value == "COUNTS" and isinstance(x.left, ast.Subscript) \
-                    and isinstance(x.left.value, ast.Subscript):
-                r_counts = try_const(ctx, f, x.left.value.slice)
+            if isinstance(x, ast.Compare) and isinstance(x.comparators[0], ast.Constant) and x.comparators[0].value == "COUNTS" and isinstance(x.left, ast.Subscript):
+                row = x.left.value
+                if isinstance(row, ast.Name):           # counts_line = lines[5]; counts_line[2] != "COUNTS"
+                    row = single_def(f.node, row.id)
+                if isinstance(row, ast.Subscript):
+                    r_counts = try_const(ctx, f, row.slice)
             if isinstance(x, ast.Assign) and isinstance(x.targets[0], ast.Name) and x.targets[0].id == "atom_block_offset":
                 r_atoms = try_const(ctx, f, x.value)
+    if r_atoms is None:
+        # the atom block written as a slice with a literal start:  lines[7 : 7 + atom_count]
+        for q in ctx.cg.closure([v3.fq]):
+            f = ctx.cg.funcs[q]
+            if "atom" not in f.name:
+                continue
+            for x in own_walk(f.node):
+                if isinstance(x, ast.Subscript) and isinstance(x.slice, ast.Slice) and x.slice.lower is not None and x.slice.upper is not None:
+                    lo = try_const(ctx, f, x.slice.lower)
+                    if isinstance(lo, int) and lo >= 4 and try_const(ctx, f, x.slice.upper) is None:
+                        r_atoms = lo
     ok = f1 and r_counts is not None and n_counts == r_counts
     res.inst(w.fq, f"COUNTS is written as line {n_counts} (0-based); reader expects it at {r_counts}", "ok" if ok else "fail")
     if not ok:
